@@ -26,3 +26,17 @@ func Notify(c chan<- ros.Signal, sig ...ros.Signal) {
 		}
 	})
 }
+
+func Stop(c chan<- ros.Signal) {
+	if zsim.W != nil && zsim.Active() {
+		return
+	}
+	rsignal.Stop(c)
+}
+
+func Ignore(sig ...ros.Signal) {
+	if zsim.W != nil && zsim.Active() {
+		return
+	}
+	rsignal.Ignore(sig...)
+}
